@@ -53,8 +53,9 @@ Record scst := ScSt { sc_ord : gdist; sc_tf : gdist; sc_ldr : gdist }.   (* ordi
 (* selectCandidates: stores not yet selected, passing the engine filter, the scatter state filter
    (engine context literal, Gen_C11.scatter_flags) and the placement safeguard, and not among the stores
    with the highest total count (unless all totals are equal).
-   `excl` = stores excluded in addition (empty on the unchanged tree; the region's other stores in the
-   repaired selection rule, fixes/C11_scatter_exclude_region_stores.patch). *)
+   `excl` = the stores of the region's OTHER peers: since the fix "region scatter must not pick a store that
+   holds another peer of the region" selectCandidates excludes them as well (before it, a peer could be sent
+   onto another peer's store and the two collapsed into one target: S12). *)
 Definition max_total (g : gdist) (stores : list store) : Z := fold_left (fun m s => Z.max m (total g (sid s))) stores 0.
 Definition min_total (g : gdist) (stores : list store) : Z :=
   match stores with [] => 0 | s :: r => fold_left (fun m x => Z.min m (total g (sid x))) r (total g (sid s)) end.
@@ -92,10 +93,9 @@ Section Scatter.
   Variable stores : list store.
   Variable grp : Z.
   Variable guard : Z -> Z -> bool.        (* placement safeguard: source store -> candidate -> passes *)
-  Variable fixed : bool.                  (* false = the code as it is; true = the repaired selection rule *)
   Variable region_stores : list Z.
 
-  Definition others (src : Z) : list Z := if fixed then filter (fun x => negb (x =? src)) region_stores else [].
+  Definition others (src : Z) : list Z := filter (fun x => negb (x =? src)) region_stores.
 
   Definition peer_choices (engine_ok : store -> bool) (g : gdist) (a : acc) (p : peer) : list Z :=
     match find_store stores (p_store p) with
@@ -140,7 +140,7 @@ Definition store_is (stores : list store) (f : store -> bool) (id : Z) : bool :=
   match find_store stores id with Some s => f s | None => false end.
 
 (* all outcomes of scatterRegion over all processing orders of the ordinary peers and of the tiflash peers *)
-Definition scatter_outcomes (fixed : bool) (stores : list store) (st : scst) (grp : Z) (guard : Z -> Z -> bool) (r : region) : list outcome :=
+Definition scatter_outcomes (stores : list store) (st : scst) (grp : Z) (guard : Z -> Z -> bool) (r : region) : list outcome :=
   let rs := stores_of (peers r) in
   (* peers on unknown stores would make the real code panic; they are never generated *)
   let ordp := filter (fun p => store_is stores is_ordinary (p_store p)) (peers r) in
@@ -150,10 +150,10 @@ Definition scatter_outcomes (fixed : bool) (stores : list store) (st : scst) (gr
       flat_map (fun ld =>
         flat_map (fun o2 =>
           map (fun a2 => Outcome (a_targets a2) ld (a_clash a2))
-              (run_order stores grp guard fixed rs (has_engine val_tiflash) (sc_tf st) a1 o2))
+              (run_order stores grp guard rs (has_engine val_tiflash) (sc_tf st) a1 o2))
           (perms tfp))
         (leader_choices stores grp (sc_ldr st) (a_targets a1)))
-      (run_order stores grp guard fixed rs is_ordinary (sc_ord st) (Acc [] [] false) o1))
+      (run_order stores grp guard rs is_ordinary (sc_ord st) (Acc [] [] false) o1))
     (perms ordp).
 
 (* RegionScatterer.Put *)
@@ -164,13 +164,19 @@ Definition put_targets (stores : list store) (st : scst) (grp : Z) (targets : li
   ScSt (sc_ord st1) (sc_tf st1) (put (sc_ldr st1) grp ld).
 
 (* ---------- peer and leader moves of the schedulers ---------- *)
-(* balance-region transferPeer / shuffle-region: targets that pass excluded(region stores), special-use and the
-   StoreStateFilter literal of the scheduler (Gen_C11.balance_region_target_flags); the placement safeguard and the
-   float score filters may only remove candidates *)
-Definition move_targets (flags : sfilter) (stores : list store) (r : region) : list store :=
-  filter (fun s => negb (memZ (sid s) (stores_of (peers r))) && negb (special_use s) && sft flags s) stores.
+(* peer moves (balance-region transferPeer, shuffle-region, hot-region move-peer, shuffle-hot-region): targets that pass
+   excluded(region stores), the scheduler's special-use filter `su` and its StoreStateFilter literal (flags from
+   Gen_C11); the placement safeguard and the float score / load filters may only remove candidates *)
+Definition move_targets (flags : sfilter) (su : store -> bool) (stores : list store) (r : region) : list store :=
+  filter (fun s => negb (memZ (sid s) (stores_of (peers r))) && negb (su s) && sft flags s) stores.
 
-(* balance-leader / evict-leader / shuffle-leader / label: follower stores passing the scheduler's StoreStateFilter *)
+(* NewSpecialUseFilter(scope, SpecialUseHotRegion): only `reserved` stores are refused (hot-region) *)
+Definition special_use_reserved (s : store) : bool :=
+  let v := label_value s key_special_use in negb (lv_empty v) && lv_eq v val_reserved.
+Definition no_special_use_filter (s : store) : bool := false.
+
+(* leader moves (balance-leader, evict-leader, shuffle-leader, label, hot-region transfer-leader; grant-leader with the
+   empty flag set: its forced transfer applies no store filter): follower stores passing the StoreStateFilter literal *)
 Definition leader_targets (flags : sfilter) (stores : list store) (r : region) : list store :=
   filter (fun s => existsb (fun p => (p_store p =? sid s) && negb (is_learner p) && negb (p_store p =? leader_store r)) (peers r)
                    && sft flags s) stores.
@@ -252,7 +258,7 @@ Definition check_scatter (c : case) (so : scatter_obs) : verdict :=
             (stores_of (peers r)) in
   if negb guard_agrees then VBad "model of the location safeguard disagrees with the real filter"
   else
-    let outs := scatter_outcomes false stores (so_before so) (so_group so) g r in
+    let outs := scatter_outcomes stores (so_before so) (so_group so) g r in
     match c_op c with
     | Some io =>
         match run_steps (start_state r) (io_steps io) with
@@ -270,15 +276,25 @@ Definition check_scatter (c : case) (so : scatter_obs) : verdict :=
         then VOk else VBad "counters after a failed scatter not admitted by the model"
     end.
 
-Definition sched_flags (k : sched) : option (sfilter * bool) :=       (* (flags, is a peer move) *)
+(* what a scheduler may return: peer moves through (flags, special-use filter, must the new store lead?),
+   leader moves through flags *)
+Record sched_model := SchedModel {
+  sm_move : option (sfilter * (store -> bool) * bool);
+  sm_leader : option sfilter
+}.
+Definition sched_model_of (k : sched) : sched_model :=
   match k with
-  | SBalanceRegion => Some (Gen_C11.balance_region_target_flags, true)
-  | SShuffleRegion => Some (Gen_C11.shuffle_region_flags, true)
-  | SBalanceLeader => Some (Gen_C11.balance_leader_flags, false)
-  | SShuffleLeader => Some (Gen_C11.shuffle_leader_flags, false)
-  | SEvictLeader => Some (Gen_C11.evict_leader_flags, false)
-  | SLabel => Some (Gen_C11.label_flags, false)
-  | _ => None
+  | SBalanceRegion => SchedModel (Some (Gen_C11.balance_region_target_flags, special_use, false)) None
+  | SShuffleRegion => SchedModel (Some (Gen_C11.shuffle_region_flags, special_use, false)) None
+  | SHotRegion => SchedModel (Some (Gen_C11.hot_move_flags, special_use_reserved, false)) (Some Gen_C11.hot_leader_flags)
+  | SShuffleHot => SchedModel (Some (Gen_C11.shuffle_hot_flags, no_special_use_filter, true)) None
+  | SScatterRange => SchedModel (Some (Gen_C11.balance_region_target_flags, special_use, false)) (Some Gen_C11.balance_leader_flags)
+  | SBalanceLeader => SchedModel None (Some Gen_C11.balance_leader_flags)
+  | SShuffleLeader => SchedModel None (Some Gen_C11.shuffle_leader_flags)
+  | SEvictLeader => SchedModel None (Some Gen_C11.evict_leader_flags)
+  | SLabel => SchedModel None (Some Gen_C11.label_flags)
+  | SGrantLeader => SchedModel None (Some [])             (* CreateForceTransferLeaderOperator: no store filter *)
+  | SScatter => SchedModel None None
   end.
 
 Definition check_sched (c : case) (io : impl_op) : verdict :=
@@ -289,19 +305,26 @@ Definition check_sched (c : case) (io : impl_op) : verdict :=
       let fin := final_state tr (start_state r) in
       if negb (rstate_eqb fin (io_final io)) then VBad "Coq step semantics and the Go simulator disagree"
       else
-        match sched_flags (c_sched c) with
-        | Some (flags, true) =>
-            match is_replace_shape (start_state r) fin with
-            | Some (src, dst) =>
-                if existsb (fun s => sid s =? dst) (move_targets flags (c_stores c) r) then VOk
-                else VBad "peer move target not in the model's admissible set"
-            | None => VBad "peer-move scheduler returned something that is not a replacement"
+        let m := sched_model_of (c_sched c) in
+        match is_replace_shape (start_state r) fin with
+        | Some (src, dst) =>
+            match sm_move m with
+            | Some (flags, su, lead) =>
+                if negb (existsb (fun s => sid s =? dst) (move_targets flags su (c_stores c) r))
+                then VBad "peer move target not in the model's admissible set"
+                else if lead && negb (rs_leader fin =? dst) then VBad "the moved peer was to become the leader"
+                else VOk
+            | None => VBad "a scheduler that only moves leaders returned a peer move"
             end
-        | Some (flags, false) =>
-            if list_eqb peer_eqb (rs_peers fin) (peers r)
-               && existsb (fun s => sid s =? rs_leader fin) (leader_targets flags (c_stores c) r)
-            then VOk else VBad "leader move target not in the model's admissible set"
-        | None => VOk
+        | None =>
+            if list_eqb peer_eqb (rs_peers fin) (peers r) then
+              match sm_leader m with
+              | Some flags =>
+                  if existsb (fun s => sid s =? rs_leader fin) (leader_targets flags (c_stores c) r) then VOk
+                  else VBad "leader move target not in the model's admissible set"
+              | None => VBad "a scheduler that only moves peers returned a leader move"
+              end
+            else VBad "operator is neither one peer move nor a leader move"
         end
   end.
 
